@@ -389,6 +389,25 @@ def rewrite_std_calls(lines, counts):
     return out
 
 
+_IF1 = re.compile(r'^(\s*)((?:\} else )?if .+) \{ (.+;) \}$')
+
+
+def split_one_line_ifs(lines, counts):
+    """T25: `if C { stmt; }` written on one line -> three lines (the normal form rustfmt produces by default), so that annotations
+    attached inside the block of either spelling find their place."""
+    out = []
+    for txt, no in lines:
+        mo = _IF1.match(txt)
+        if mo and not txt.lstrip().startswith('//') and mo.group(3).count('{') == mo.group(3).count('}'):
+            counts.bump('T25_one_line_if_split')
+            out.append(('%s%s {' % (mo.group(1), mo.group(2)), no))
+            out.append(('%s    %s' % (mo.group(1), mo.group(3)), no))
+            out.append(('%s}' % mo.group(1), no))
+        else:
+            out.append((txt, no))
+    return out
+
+
 _WCAP = re.compile(r'^(\s*)let mut (\w+) = Vec::with_capacity\((.+)\);$')
 
 
@@ -470,6 +489,7 @@ def transform(text, counts, select=None):
     if select:
         lines = select_items(lines, select)
     lines = join_method_chains(lines, counts)
+    lines = split_one_line_ifs(lines, counts)
     lines = rewrite_asserts(lines, counts)
     lines = rewrite_unchecked(lines, counts)
     lines = split_block_heads(lines, counts)
